@@ -7,9 +7,8 @@ pub trait InnerUser { type Inner; }
 pub trait IvSizeUser { type IvSize: ArraySize; }
 pub type Iv<B> = Array<u8, <B as IvSizeUser>::IvSize>;
 
-pub trait InnerIvInit: InnerUser + IvSizeUser + Sized {
-    fn inner_iv_init(cipher: Self::Inner, iv: &Iv<Self>) -> Self;
-}
+// `trait InnerIvInit` is extracted from the pinned crypto-common crate (contracts/dep_common.py): its default
+// `inner_iv_slice_init` (IV slice of the wrong length -> Err) is verified text
 pub trait InnerInit: InnerUser + Sized {
     fn inner_init(cipher: Self::Inner) -> Self;
 }
